@@ -602,7 +602,7 @@ var genScenarios = map[string]func(g *Gen) []scriptStep{
 			opStep(&Op{Kind: "CreateTopic", Name: sT0}),
 			subStep(&SubReq{Name: sS0, Topic: sT0, Ordered: true}), subStep(&SubReq{Name: sS1, Topic: sT0}),
 			pubStep(sT0, "k1"), pubStep(sT0, "k1", "k2"),
-			pullStep(sS1, 10), ackLeased(sS1, "Ack", 0, false),
+			pullStep(sS1, 10), ackLeasedN(sS1, 1, 100000), // the sibling acknowledges all but the oldest
 			opStep(&Op{Kind: "CreateSnap", Name: "projects/p/snapshots/n0", Name2: sS0}),
 			pubStep(sT0, "k1"),
 			opStep(&Op{Kind: "SeekSnap", Name: sS0, Name2: "projects/p/snapshots/n0"}),
